@@ -764,10 +764,11 @@ class TabsSelectorHandler(Handler):
                 )
 
             if isinstance(page.ast, n.Root):
-                if not page.ast.options.get("selectors"):
+                # A page-level field of the same name (":selectors: x") does not survive: the
+                # option belongs to this handler
+                if not isinstance(page.ast.options.get("selectors"), Dict):
                     page.ast.options["selectors"] = {}
 
-                assert isinstance(page.ast.options["selectors"], Dict)
                 page.ast.options["selectors"][tabset_name] = {
                     tabid: [node.serialize() for node in title]
                     for tabid, title in tabsets[0].items()
@@ -785,10 +786,9 @@ class TabsSelectorHandler(Handler):
                         )
                         return
 
-                    if not page.ast.options.get("default_tabs"):
+                    if not isinstance(page.ast.options.get("default_tabs"), Dict):
                         page.ast.options["default_tabs"] = {}
 
-                    assert isinstance(page.ast.options["default_tabs"], Dict)
                     page.ast.options["default_tabs"][tabset_name] = self.default_tabs[
                         tabset_name
                     ]
